@@ -4912,9 +4912,10 @@ class Prefixed(Subconstruct):
         return f"restream(io.read(({self.lengthfield._compileparse(code)})-({sub})), lambda io: ({self.subcon._compileparse(code)}))"
 
     def _emitseq(self, ksy, bitwise):
+        size = "lengthfield - %s" % (self.lengthfield.sizeof(), ) if self.includelength else "lengthfield"
         return [
             dict(id="lengthfield", type=self.lengthfield._compileprimitivetype(ksy, bitwise)), 
-            dict(id="data", size="lengthfield", type=self.subcon._compileprimitivetype(ksy, bitwise)),
+            dict(id="data", size=size, type=self.subcon._compileprimitivetype(ksy, bitwise)),
         ]
 
 
